@@ -141,6 +141,10 @@ def run_region_operator(spec):
         asm = r.assemblies[0]
         o.check(float(r.req_dz) <= min(r.min_dz["dz"]) * (1 + 1e-12), "req_dz_exceeds_limit",
                 "%r > %r" % (r.req_dz, min(r.min_dz["dz"])))
+        o.check(float(np.max(r.dz)) <= min(r.min_dz["dz"]) * (1 + 1e-9), "step_exceeds_limit",
+                "%r > %r" % (float(np.max(r.dz)), min(r.min_dz["dz"])))
+        user = c.spec["setup"].get("axial_mesh_size")
+        o.classes["user_step"] = "none" if user is None else ("above_limit" if user > min(r.min_dz["dz"]) else "below_limit")
         r.axial_step0()
         probed = set()
         min_self = [1.0]
@@ -369,15 +373,25 @@ def lowfi_limited(draw):
     return sp
 
 
+@st.composite
+def with_step_request(draw, base):
+    """user step requests above and below the stability limit (the length is n_steps x the limit): the operator is probed at
+    the step the sweep really takes"""
+    sp = draw(base)
+    if draw(st.integers(0, 2)) == 0:
+        sp["setup"]["axial_mesh_size_frac"] = gen.r6(draw(gen.logfl(0.01, 1.0)))
+    return sp
+
+
 def parts(tier):
     q = tier == "quick"
     return [
         Part("region_operator", run_region_operator,
-             strategy=gen.single_assembly(rings=(2, 5) if q else (2, 7), ducts=(1, 3), n_steps=(4, 12),
-                                          conv_approx=True, regions=True, lowfi=True, dT=(1.0, 20.0),
-                                          regimes=("low", "lam", "tra", "tur")),
+             strategy=with_step_request(gen.single_assembly(rings=(2, 5) if q else (2, 7), ducts=(1, 3), n_steps=(4, 12),
+                                                            conv_approx=True, regions=True, lowfi=True, dT=(1.0, 20.0),
+                                                            regimes=("low", "lam", "tra", "tur"))),
              examples=96 if q else 3000),
-        Part("lowfi_operator", run_region_operator, strategy=lowfi_limited(), examples=64 if q else 1500),
+        Part("lowfi_operator", run_region_operator, strategy=with_step_request(lowfi_limited()), examples=64 if q else 1500),
         Part("gap_operator", run_gap_operator,
              strategy=gen.core_spec(core_rings=(1, 2) if q else (1, 3), rings=(2, 4), ducts=(1, 2),
                                     gap_models=("flow", "flow", "no_flow", "duct_average"), n_steps=(3, 6),
